@@ -104,7 +104,9 @@ def airspeed_orderings(V, H):
     cas0, eas0 = float(AERO.tas2cas(V, 0)), float(AERO.tas2eas(V, 0))
     assert abs(cas0 - V) <= 1e-6 * V and abs(eas0 - V) <= 1e-6 * V, "CAS = EAS = TAS at sea level"
     eas, cas = float(AERO.tas2eas(V, H)), float(AERO.tas2cas(V, H))
-    assert V >= eas * (1 - 1e-12) and cas >= eas * (1 - 1e-12), "TAS >= EAS and CAS >= EAS at altitude"
+    # same 1e-6 relative tolerance as the sea-level equalities: at H = 0 the three speeds coincide up to the
+    # 1.5e-8 mismatch between p0 and rho0*R*T0, so the orderings are equalities there
+    assert V >= eas * (1 - 1e-6) and cas >= eas * (1 - 1e-6), "TAS >= EAS and CAS >= EAS at altitude"
     m = V / 340.0
     assert abs(float(AERO.cas2mach(AERO.mach2cas(m, H), H)) - m) <= 1e-9, "cas2mach(mach2cas(M)) == M"
     arr = AERO.tas2cas(np.array([V, V / 2]), np.array([H, H]))
